@@ -157,71 +157,64 @@ def run_tlc(prop, module, cfg=None, tier="quick", workers=8, seed=0, extra_env=N
     return res
 
 
-def run_replay(prop, cases, name="cases", threads=12, timeout=1800):
-    """Write the cases, run them through the real library, return the result records by id."""
+def run_replay(prop, cases, name="cases", threads=12, timeout=1800, chunk=4000):
+    """Write the cases, run them through the real library (in chunks, each in its own process), return the
+    result records by id.  A chunk whose process dies (abort, stack overflow) or hangs is bisected."""
     build_harness()
     wd = workdir(prop)
-    cin = os.path.join(wd, name + ".ndjson")
-    cout = os.path.join(wd, name + ".results.ndjson")
-    with open(cin, "w") as f:
-        for i, c in enumerate(cases):
-            c["id"] = i
+    for i, c in enumerate(cases):
+        c["id"] = i
+    with open(os.path.join(wd, name + ".ndjson"), "w") as f:
+        for c in cases:
             f.write(json.dumps(c, separators=(",", ":")) + "\n")
     t0 = time.time()
-    p = subprocess.run(["timeout", str(timeout), VH, "replay", cin, cout, str(threads)], cwd=wd, env=env_base(),
-                       stdout=subprocess.PIPE, stderr=subprocess.STDOUT, text=True)
-    if p.returncode != 0:
-        # a crash of the whole process (abort, stack overflow) - bisect to find the offending case
-        sys.stdout.write(p.stdout[-2000:])
-        return bisect_crash(prop, cases, name, threads, timeout)
     results = {}
-    with open(cout) as f:
-        for line in f:
-            r = json.loads(line)
-            results[r["id"]] = r
+    per_chunk_timeout = max(120, min(timeout, 900))
+
+    def run_range(lo, hi, nthreads, tmo, tag):
+        cin = os.path.join(wd, f"{name}.{tag}.ndjson")
+        cout = os.path.join(wd, f"{name}.{tag}.results.ndjson")
+        with open(cin, "w") as f:
+            for i in range(lo, hi):
+                f.write(json.dumps(cases[i], separators=(",", ":")) + "\n")
+        p = subprocess.run(["timeout", str(tmo), VH, "replay", cin, cout, str(nthreads)], cwd=wd, env=env_base(),
+                           stdout=subprocess.PIPE, stderr=subprocess.STDOUT, text=True)
+        if p.returncode != 0:
+            return p.returncode
+        with open(cout) as f:
+            for line in f:
+                r = json.loads(line)
+                results[r["id"]] = r
+        return 0
+
+    def bisect(lo, hi, rc):
+        if hi - lo == 1:
+            why = ("the call did not return within 20 s (hang / resource exhaustion)" if rc == 124
+                   else "process aborted (stack overflow / abort) on this behaviour")
+            results[cases[lo]["id"]] = {"id": cases[lo]["id"], "kind": cases[lo].get("kind"), "ok": False, "abort": why}
+            return
+        mid = (lo + hi) // 2
+        for (a, b) in ((lo, mid), (mid, hi)):
+            r = run_range(a, b, 4, 20 + (b - a) // 20, "bisect")
+            if r != 0:
+                bisect(a, b, r)
+
+    for lo in range(0, len(cases), chunk):
+        hi = min(lo + chunk, len(cases))
+        rc = run_range(lo, hi, threads, per_chunk_timeout, "chunk")
+        if rc != 0:
+            log(f"[replay] harness process died or hung (rc={rc}) in behaviours {lo}..{hi}; isolating")
+            bisect(lo, hi, rc)
+    with open(os.path.join(wd, name + ".results.ndjson"), "w") as f:
+        for i in range(len(cases)):
+            if i in results:
+                f.write(json.dumps(results[i]) + "\n")
     if len(results) != len(cases):
         raise ToolError(f"harness returned {len(results)} results for {len(cases)} cases")
     for r in results.values():
         if "tool_error" in r:
             raise ToolError(f"harness tool error on case {r['id']}: {r['tool_error']}")
     log(f"[replay] {len(cases)} behaviours replayed against the real library in {time.time() - t0:.1f}s")
-    return results
-
-
-def bisect_crash(prop, cases, name, threads, timeout):
-    """The harness process died: run the cases one by one in child processes (slow path)."""
-    wd = workdir(prop)
-    results = {}
-    log(f"[replay] harness process died; isolating the crashing behaviour among {len(cases)}")
-
-    def run_chunk(lo, hi):
-        cin = os.path.join(wd, f"{name}.chunk.ndjson")
-        cout = os.path.join(wd, f"{name}.chunk.results.ndjson")
-        with open(cin, "w") as f:
-            for i in range(lo, hi):
-                f.write(json.dumps(cases[i], separators=(",", ":")) + "\n")
-        p = subprocess.run(["timeout", str(timeout), VH, "replay", cin, cout, "1"], cwd=wd, env=env_base(),
-                           stdout=subprocess.PIPE, stderr=subprocess.STDOUT, text=True)
-        if p.returncode == 0:
-            with open(cout) as f:
-                for line in f:
-                    r = json.loads(line)
-                    results[r["id"]] = r
-            return True
-        return False
-
-    def go(lo, hi):
-        if run_chunk(lo, hi):
-            return
-        if hi - lo == 1:
-            results[cases[lo]["id"]] = {"id": cases[lo]["id"], "kind": cases[lo].get("kind"), "ok": False,
-                                        "abort": "process aborted (stack overflow / abort) on this behaviour"}
-            return
-        mid = (lo + hi) // 2
-        go(lo, mid)
-        go(mid, hi)
-
-    go(0, len(cases))
     return results
 
 
